@@ -466,3 +466,47 @@ func VerifC14ColumnsMatchPrefixUtf8() {
 	}
 	nd.Assert("c14.columnsmatch.prefix-utf8.no-false-duplicate", nd.Implies(got, same))
 }
+
+// Two unique indexes on one table (u1 on c1, u2 on c2; visiting order either
+// way): a row is rejected iff it duplicates a stored row in SOME index whose
+// columns are all non-NULL in both rows — a NULL in one index must only
+// exempt that index, not the others. (Added after a seeded change that turned
+// `continue` into `return nil` in checkUniqueConstraints was missed by the
+// single-index harnesses; see /verif/seeded/C14-unique-null-return.)
+func VerifC14UniqueCheckTwoIndexes() {
+	mk := func(name string, pk int64) (sql.Row, []int64, []bool) {
+		row := make(sql.Row, 3)
+		v := make([]int64, 3)
+		null := make([]bool, 3)
+		row[0] = pk
+		for i := 1; i < 3; i++ {
+			row[i], v[i], null[i] = c14NullableInt(name + ".c" + strconv.Itoa(i))
+		}
+		return row, v, null
+	}
+	newRow, nv, nn := mk("two.new", nd.Int64("two.new.pk"))
+	pke := c14Pke(c14Data(c14Schema(1, types.Int64, types.Int64, types.Int64)))
+	nrows := nd.IntRange("two.nrows", 1, 2)
+	dup := false
+	for i := 0; i < nrows; i++ {
+		row, v, null := mk("two.r"+strconv.Itoa(i), int64(i+1))
+		if nd.Pick("two.where"+strconv.Itoa(i), 2) == 0 {
+			pke.tableData.partitions["0"] = append(pke.tableData.partitions["0"], row)
+		} else {
+			_ = pke.Insert(nil, row)
+		}
+		for c := 1; c <= 2; c++ {
+			dup = nd.Or(dup, nd.And(nd.And(!null[c], !nn[c]), v[c] == nv[c]))
+		}
+	}
+	order := [][]int{{1}, {2}}
+	if nd.Pick("two.order", 2) == 1 {
+		order = [][]int{{2}, {1}}
+	}
+	ed := &tableEditor{ea: pke, uniqueIdxCols: order, prefixLengths: [][]uint16{nil, nil}, uniqueIdxNames: []string{"u1", "u2"}}
+	err := ed.checkUniqueConstraints(nil, newRow)
+	nd.Reach("c14.unique.two")
+	nd.Observe(err != nil)
+	nd.Assert("c14.unique.two.duplicate-rejected", nd.Implies(dup, err != nil))
+	nd.Assert("c14.unique.two.no-false-duplicate", nd.Implies(err != nil, dup))
+}
